@@ -312,7 +312,7 @@ def module_positions_preserved(H, shape):
     H.cover("reached")
 
 
-@contract("legacy_module_high_byte", ["C04"], targets=["rv.readers.sunvox:SunVoxReader.process_end_of_file",
+@contract("legacy_module_high_byte", ["C04", "C14"], targets=["rv.readers.sunvox:SunVoxReader.process_end_of_file",
                                                         "rv.readers.pattern:PatternReader.process_PEND", "rv.note:Note.raw_data (setter)"])
 def legacy_module_high_byte(H, _):
     """A pattern cell's module number: files stamped with a version below 1.9.5.0 get the high byte
